@@ -117,3 +117,39 @@ def check_watcher(case):
         fails.append(("aux-sees-stale-main-recurred", "tick period %s: the auxiliary's `.framer.boss.state.recurred >= %d` fired at tick %r, "
                       "expected tick %d\n%s" % (P, N, got.get("w2"), n2, text)))
     return fails
+
+
+# ------------------------------------------------------------------ an auxiliary handed from frame to frame
+def handover_script(conds):
+    L = ["house h", "framer m be active first f0"]
+    for i, c in enumerate(conds):
+        L += ["frame f%d" % i, "aux x", line_of(c)]
+    L += ["frame f%d" % len(conds), "print end", "framer x be aux", "frame x0", "print x"]
+    return "\n".join(L) + "\n"
+
+
+def check_handover(case):
+    """Every frame of a sequence lists the same original aux and is left by `timeout T` / `repeat N`: the transition
+    hands the aux from the frame being left to the next one, so each frame is left at the first evaluation at which
+    its clock condition holds. case: {"P", "conds": [...]} -> failures"""
+    P, conds = case["P"], case["conds"]
+    text = handover_script(conds)
+    want = []
+    t = 0
+    for c in conds:
+        t += expected_leave(c, P, 400)
+        want.append(t)
+    tr = run_text(text, want[-1] + 4, period=P)
+    if tr["build"] != "True" or tr.get("exc"):
+        return [("handover-build:%s" % (tr.get("exc") or tr["build"]), "build %s %s\n%s" % (tr["build"], tr.get("detail"), text))]
+    got = {}
+    for tk, i, e in all_events(tr):
+        if e[0] == "f" and e[1] == "m" and e[3] == "enter" and e[2] not in got:
+            got[e[2]] = tk
+    seq = [got.get("f%d" % (i + 1)) for i in range(len(conds))]
+    if seq != want:
+        k = next(i for i in range(len(conds)) if seq[i] != want[i])
+        return [("%s-%s-with-aux-handed-over" % (conds[k][0], "late" if seq[k] is None or seq[k] > want[k] else "early"),
+                 "tick period %s: frame f%d (`%s`, same original aux as the next frame) was left at tick %r, its clock reaches the "
+                 "goal at tick %d (all frames: %r, expected %r)\n%s" % (P, k, line_of(conds[k]), seq[k], want[k], seq, want, text))]
+    return []
